@@ -727,6 +727,9 @@ class OrdinalNearestNeighbor(Ordinal):
     ) -> Union[Any, List[Any]]:
         if random_state is None:
             random_state = np.random
+        if not self._more_than_one_category:
+            category = self.categories[0]
+            return [category] * size if size > 1 else category
         items = random_state.uniform(self._lower_int, self._upper_int, size=size)
         if size > 1:
             return [self.cast_int(x) for x in items]
